@@ -229,6 +229,48 @@ def loader_sections(ctx):
     return secs, facts, loopvar, fixed
 
 
+def _filename_list_shape(cfl):
+    """create_filename_list(d) = [str(k) + '.txt' for k in d] in one of its spellings -> True; a recognised spelling with another
+    element expression -> False; anything else -> None."""
+    d = params(cfl)[0] if params(cfl) else None
+    sources = {d, '%s.keys()' % d, 'list(%s)' % d, 'list(%s.keys())' % d, 'sorted(%s)' % d}
+
+    def elem_ok(e, k):
+        t = U(e)
+        if t in ("str(%s) + '.txt'" % k, "'%%s.txt' %% %s" % k, "'{}.txt'.format(%s)" % k, "'%%s.txt' %% (%s,)" % k, "'{0}.txt'.format(%s)" % k):
+            return True
+        if isinstance(e, ast.JoinedStr) and len(e.values) == 2 and isinstance(e.values[0], ast.FormattedValue) \
+                and U(e.values[0].value) == k and e.values[0].conversion in (-1, 115) and e.values[0].format_spec is None \
+                and isinstance(e.values[1], ast.Constant) and e.values[1].value == '.txt':
+            return True
+        return False
+    rets = [r for r in walk_local(cfl) if isinstance(r, ast.Return)]
+    if len(rets) != 1 or rets[0].value is None:
+        return None
+    v = rets[0].value
+    stores = stores_in(cfl)
+    if isinstance(v, ast.Name) and len(stores.get(v.id, [])) == 1 and isinstance(stores[v.id][0][1], ast.ListComp):
+        v = stores[v.id][0][1]
+    if isinstance(v, ast.ListComp) and len(v.generators) == 1 and not v.generators[0].ifs and isinstance(v.generators[0].target, ast.Name):
+        if U(v.generators[0].iter) not in sources:
+            return None
+        return elem_ok(v.elt, v.generators[0].target.id)
+    if isinstance(v, ast.Name):
+        # in-place form: L = list(d); for i, k in enumerate(L): L[i] = E(k)      /  L = []; for k in d: L.append(E(k))
+        L = v.id
+        init = [val for st_, val in stores.get(L, []) if val is not None]
+        for lp in [n for n in walk_local(cfl) if isinstance(n, ast.For)]:
+            if len(init) == 1 and U(init[0]) in sources - {d} and U(lp.iter) == 'enumerate(%s)' % L and isinstance(lp.target, ast.Tuple) \
+                    and len(lp.target.elts) == 2 and len(lp.body) == 1 and isinstance(lp.body[0], ast.Assign) \
+                    and U(lp.body[0].targets[0]) == '%s[%s]' % (L, U(lp.target.elts[0])):
+                return elem_ok(lp.body[0].value, U(lp.target.elts[1]))
+            if len(init) == 1 and U(init[0]) == '[]' and U(lp.iter) in sources and isinstance(lp.target, ast.Name) and len(lp.body) == 1 \
+                    and isinstance(lp.body[0], ast.Expr) and isinstance(lp.body[0].value, ast.Call) \
+                    and U(lp.body[0].value.func) == L + '.append' and len(lp.body[0].value.args) == 1:
+                return elem_ok(lp.body[0].value.args[0], lp.target.id)
+    return None
+
+
 def r1_tag_chain(ctx, rule, scope='all'):
     labels = {}
     for det, rel in DET_MODULE.items():
@@ -243,7 +285,10 @@ def r1_tag_chain(ctx, rule, scope='all'):
     site = PARSER + 'parse'
     # create_filename_list shape: str(key) + '.txt'
     cfl = ctx.fn(CONF + 'create_filename_list')
-    cfl_ok = "str(name) + '.txt'" in U(cfl) and 'list(input_dictionary)' in U(cfl)
+    cfl_ok = _filename_list_shape(cfl)
+    if cfl_ok is None:
+        ctx.unk(rule, CONF + 'create_filename_list', 'the way create_filename_list turns the counter keys into file names is not of a form this rule knows')
+        cfl_ok = True
     # loader key / path construction
     lv = loopvar or 'file'
     key_ok = lfacts.get('name') == "config.get('name') + %s.split('.')[0]" % lv
